@@ -125,6 +125,57 @@ CHECKS = {
         "two seeded value draws per program; tau grid of 6 points in [1e-3,1e3].",
         "DESIGN.md#c06",
     ),
+    "C04": (
+        "exhaustive walk of log-grids over the stated hyperparameter ranges; expectations by "
+        "Gauss-Hermite quadrature (elementwise) or fixed-seed Monte-Carlo of the implementation",
+        "Every grid point of mult in [1/16,16] (65/129 points) for gelu exact/tanh, silu, silu_glu; "
+        "softmax width x mult; attention seq x head x mult x causal x dropout (336 configurations); "
+        "cross-entropy vocab x mult x reduction plus uniform logits; norm widths: the implementation's "
+        "output std / RMS and autograd gradient RMS are evaluated and compared with the statement's "
+        "thresholds. Weakest fit of the family: a grid over a continuum, Monte-Carlo expectations for "
+        "the non-elementwise ops.",
+        "continuum between grid points not enumerated (A2); Monte-Carlo sampling error < 0.5% "
+        "against >= 4% margins.",
+        "DESIGN.md#c04",
+    ),
+    "C08": (
+        "full product of constructor-option domains per module x train/eval x input shapes, "
+        "against the functional form with the constructor's options and the torch.nn twin",
+        "9.4k configurations: every simple module over the full product of its option domains "
+        "(Conv1d alone 4k: kernel, stride, padding, 4 padding modes, dilation, groups, bias, 7 "
+        "constraints) x train/eval: output and all gradients equal the functional call made with the "
+        "options passed to the constructor (1e-12), shape equals the torch.nn twin loaded with the same "
+        "state_dict and values are proportional; rejected options raise; fresh-construction "
+        "statistics, tags and depth containers; MLP/MHSA/TransformerLayer/Decoder option products "
+        "checked via spies on the functional calls and behavioural invariants (causality for every "
+        "position, eval determinism, batch independence, parameter shapes).",
+        "one seeded value draw per configuration; composite modules not compared against a "
+        "re-implementation of their tensor layout.",
+        "DESIGN.md#c08",
+    ),
+    "C09": (
+        "stateless exhaustive enumeration of operation histories (depth 3/4) plus explicit-state "
+        "BFS to fixpoint over a canonical state including implementation-hidden hook bits",
+        "All 1885 (quick) / 22621 (thorough) sequences over 12 operations (deepcopy/pickle/"
+        "torch.save of parameter and of module, to(float64), half, load_state_dict, requires_grad "
+        "toggle, simulate_fp8, unit_scale) from 12 initial (tag, depth) states are replayed on fresh "
+        "objects and compared with a tuple reference model after every step (tags, values, dtype, "
+        "requires_grad, Parameter-ness, optimizer lr scale); a BFS over (dtype, requires_grad, hook "
+        "bits, transformed, holder class) reaches its fixpoint (18 states, depth 4).",
+        "BFS abstraction drops tensor values; module-level pickling after a transform is impossible "
+        "in Python (local closure) and counted as unrealisable.",
+        "DESIGN.md#c09",
+    ),
+    "C12": (
+        "full product walk of (layer, fan_in, fan_out, kernel, depth/container form, eta, "
+        "optimizer, constraint) with exhaustive +-1 patterns for small fans",
+        "27k configurations (Linear, LinearReadout, single-position Conv1d; fans up to 1000/4096; "
+        "kernel 1-9; depth None/1/2/3/64 through three container forms; eta 1e-4..1; Adam/AdamW): "
+        "after one optimizer step every output coordinate must have moved by exactly eta/sqrt(depth) "
+        "(1e-9) against the upstream sign; all 2^fan_in x 2^fan_out sign patterns when fans <= 3.",
+        "two seeded +-1 patterns for larger fans; eps=0, no weight decay, float64.",
+        "DESIGN.md#c12",
+    ),
 }
 
 NOT_YET = {}
